@@ -9,7 +9,8 @@ namespace Graphrs
 def P.rat : P Rat := do
   let n ← P.next
   let d ← P.nat
-  pure ((n : Rat) / ((if d == 0 then 1 else d : Nat) : Rat))
+  -- denominator 0 encodes an extreme value: numerator x 10^-320 (the harness hands the implementation the subnormal f64)
+  pure (if d == 0 then (n : Rat) / ((10 : Rat) ^ 320) else (n : Rat) / ((d : Nat) : Rat))
 
 /-- `mod <graph> <weighted> <res num den> <communities>` -/
 def handleMod : P String := do
